@@ -24,6 +24,8 @@ const (
 var DBL_EPSILON float64 = math.Nextafter(1, 2) - 1
 
 type ProtModel struct {
+	exch       *mat.Dense // exchangeabilities of the model (never modified)
+	modelpi    []float64  // aa frequencies of the model (never modified)
 	pi         []float64  // aa frequency
 	mat        *mat.Dense // substitution matrix
 	mr         float64    //MeanRate
@@ -60,8 +62,10 @@ func NewProtModel(model int, usegamma bool, alpha float64) (*ProtModel, error) {
 		return nil, fmt.Errorf("this protein model is not implemented")
 	}
 	return &ProtModel{
-		pi,
 		m,
+		pi,
+		pi,
+		mat.DenseCopyOf(m),
 		-1.0,
 		nil,
 		nil,
@@ -112,6 +116,10 @@ func (model *ProtModel) InitModel(aafreqs []float64) error {
 	if aafreqs != nil && len(aafreqs) != ns {
 		return fmt.Errorf("aa frequency array does not have a length of 20")
 	}
+	// InitModel may be called again on the same model: the rate matrix is always
+	// built from the exchangeabilities, and nil gives the model frequencies back
+	model.mat = mat.DenseCopyOf(model.exch)
+	model.pi = model.modelpi
 	if aafreqs != nil {
 		model.pi = aafreqs
 	}
